@@ -137,8 +137,12 @@ class C13(Prop):
             "needs it) x estimator (molecular, VanRaden, Yang, generalised weighted; class method or factory) x "
             "reference frequencies (estimated / dyadic scalar / dyadic array incl. exact 0 and 1 where allowed) x "
             "marker weights (none / scalar / non-negative array with zeros) x taxa permutation or unsorted subset; "
-            "plus arbitrary (asymmetric, diagonally dominant or indefinite) square matrices for the summaries and "
-            "a stream of inputs that must be rejected.  Non-trivial = cmat case with >= 2 distinct taxa, >= 2 "
+            "many-marker cases (128, 129, 200, 300, 1000 markers, 2-4 inbred / highly homozygous or haploid lines "
+            "sharing >= 128 identical loci, all four estimators, estimated and supplied frequencies); "
+            "plus arbitrary (asymmetric, diagonally dominant or indefinite) square matrices for the summaries; "
+            "'summaries after in-place edit' sequences on ONE object (summaries, then element assignment through "
+            "`.mat`, diagonal increment, or an `apply_jitter` that fires, then all summaries again, Spec on every "
+            "round); and a stream of inputs that must be rejected.  Non-trivial = cmat case with >= 2 distinct taxa, >= 2 "
             "markers and a polymorphic marker, or summary case with >= 2 taxa")
     TRUSTED = [
         "numpy.linalg.inv / eigvals entered through their contracts (A·A⁻¹ = I re-checked by the Spec oracle on "
@@ -152,12 +156,34 @@ class C13(Prop):
         "of the exact rational value",
         "inverse-based summaries are compared only where n·max|A|·max|A⁻¹| <= 1e4 (well conditioned)",
         "taxa selections have distinct in-range indices (permutations and subsets)",
-        "apply_jitter (random, C08 dependency) is not modelled",
+        "apply_jitter is not modelled as a function: the jittered matrix is read back from the object and the "
+        "summaries recomputed afterwards must be those of that matrix (only the diagonal may have moved, by an "
+        "amount inside the requested range)",
     ]
 
     # ------------------------------------------------------------------ generation
     def corpus(self):
-        return self._fixed_corpus() + [self._big_case()]
+        import random
+        rng = random.Random(128)
+        many = [self._bigm_case(rng, method=meth, m=mm, ploidy=pl)
+                for meth in METHODS for mm, pl in ((128, 2), (129, 1), (300, 2))]
+        many.append(self._bigm_case(rng, method="mol", m=1000, ploidy=2))
+        # two identical fully homozygous diploid lines over exactly 128 markers: X X' = 128 on every entry
+        many.append({"kind": "cmat", "method": "mol", "via": "class", "ploidy": 2, "phased": False, "n": 2,
+                     "m": 128, "geno": [[2] * 128, [2] * 127 + [0]], "taxa": ["inbred_a", "inbred_b"],
+                     "taxa_grp": None, "p": None, "w": None, "sel": [1, 0]})
+        many.append({"kind": "cmat", "method": "mol", "via": "class", "ploidy": 1, "phased": True, "n": 2,
+                     "m": 200, "geno": [[[1] * 200, [1] * 150 + [0] * 50]], "taxa": None,
+                     "taxa_grp": None, "p": None, "w": None, "sel": None})
+        edits = [
+            {"kind": "edit", "seed": 1, "src": "mat", "cls": "mol", "mat": [[2, 1], [1, 2]], "taxa": ["a", "b"],
+             "edits": [{"op": "set", "i": 0, "j": 1, "v": 0, "mirror": True}, {"op": "add_diag", "v": 2}]},
+            {"kind": "edit", "seed": 2, "src": "gmat", "method": "vr", "via": "class", "ploidy": 2,
+             "phased": False, "n": 3, "m": 2, "geno": [[1, 2], [2, 1], [0, 0]], "taxa": ["x", "y", "z"],
+             "taxa_grp": None, "p": None, "w": None, "sel": None,
+             "edits": [{"op": "jitter", "tol": "1/1000000", "lo": "1/2", "hi": 1}]},
+        ]
+        return self._fixed_corpus() + [self._big_case()] + many + edits
 
     @staticmethod
     def _big_case():
@@ -328,6 +354,115 @@ class C13(Prop):
                 "phased": phased, "n": n, "m": m, "geno": geno, "taxa": taxa, "taxa_grp": grp,
                 "p": canon.enc(pk), "w": canon.enc(wk), "sel": sel}
 
+    def _bigm_case(self, rng, method=None, m=None, ploidy=None):
+        """many markers, few taxa, inbred / highly homozygous lines (and haploid matches): pairs of taxa share
+        >= 128 jointly homozygous (or identical haploid) loci, so integer products X X' reach and pass 128, 256"""
+        method = method or rng.choice(METHODS)
+        ploidy = ploidy or rng.choice([1, 2, 2])
+        phased = rng.random() < 0.5
+        n = rng.choice([2, 2, 3, 4])
+        m = m or rng.choice([128, 129, 200, 300, 1000])
+        founder = [rng.choice([0, ploidy]) if rng.random() < 0.7 else ploidy for _ in range(m)]
+        X = []
+        for i in range(n):
+            style = rng.random()
+            if i == 0 or style < 0.35:
+                row = list(founder)                          # (nearly) the founder line
+                for _ in range(rng.choice([0, 1, 3])):
+                    row[rng.randrange(m)] = rng.randint(0, ploidy)
+            elif style < 0.6:
+                row = [ploidy - v for v in founder]          # the opposite homozygote: products -1
+                for _ in range(rng.choice([0, 2])):
+                    row[rng.randrange(m)] = rng.randint(0, ploidy)
+            else:                                            # an inbred line of its own, few heterozygous loci
+                row = [rng.choice([0, ploidy]) if rng.random() < 0.95 else rng.randint(0, ploidy)
+                       for _ in range(m)]
+            X.append(row)
+        if n >= 2 and X[0] == X[1]:
+            X[1][rng.randrange(m)] = ploidy - X[1][0]
+        pk = wk = None
+        if method != "mol":
+            r = rng.random()
+            if r < 0.3:
+                pk = None
+            elif r < 0.5:
+                pk = self._dyadic(rng, lo_open=True)
+            else:
+                pk = [self._dyadic(rng, lo_open=(method == "yang")) for _ in range(m)]
+            if pk is None:
+                polys = [self._polymorphic(X, ploidy, k) for k in range(m)]
+                if (method == "yang" and not all(polys)) or not any(polys):
+                    pk = Fraction(1, 4) if method != "yang" else [self._dyadic(rng, lo_open=True) for _ in range(m)]
+        if method == "gw":
+            r = rng.random()
+            wk = None if r < 0.3 else (rng.choice([1, 2, Fraction(1, 2)]) if r < 0.5 else
+                                       [rng.choice([0, 1, 1, 2, Fraction(1, 2)]) for _ in range(m)])
+        if phased:
+            geno = [[[0] * m for _ in range(n)] for _ in range(ploidy)]
+            for i in range(n):
+                for k in range(m):
+                    phases = list(range(ploidy))
+                    rng.shuffle(phases)
+                    for ph in phases[:X[i][k]]:
+                        geno[ph][i][k] = 1
+        else:
+            geno = X
+        sel = None
+        if method == "mol" or pk is not None:
+            sel = list(range(n))
+            rng.shuffle(sel)
+            if rng.random() < 0.4 and n > 1:
+                sel = sel[:n - 1]
+        return {"kind": "cmat", "method": method, "via": rng.choice(["class", "factory"]), "ploidy": ploidy,
+                "phased": phased, "n": n, "m": m, "geno": geno,
+                "taxa": [f"L{i}" for i in range(n)] if rng.random() < 0.7 else None,
+                "taxa_grp": None, "p": canon.enc(pk), "w": canon.enc(wk), "sel": sel}
+
+    def _edit_case(self, rng):
+        """summaries, an in-place edit of the SAME matrix object through the public surface, summaries again"""
+        n = rng.choice([2, 2, 3, 3, 4, 5])
+        case = {"kind": "edit", "seed": rng.randint(0, 2 ** 31 - 1)}
+        edits = []
+        if rng.random() < 0.6:
+            sym = rng.random() < 0.7
+            A = [[Fraction(rng.randint(-4, 4), rng.choice([1, 2, 4])) for _ in range(n)] for _ in range(n)]
+            if sym:
+                A = [[A[min(i, j)][max(i, j)] for j in range(n)] for i in range(n)]
+            for i in range(n):
+                A[i][i] = sum(abs(v) for j, v in enumerate(A[i]) if j != i) + Fraction(rng.randint(2, 8), 2)
+            case.update({"src": "mat", "cls": rng.choice(METHODS), "mat": canon.enc(A),
+                         "taxa": [f"E{i}" for i in range(n)] if rng.random() < 0.5 else None})
+            for _ in range(rng.choice([1, 1, 2, 3])):
+                r = rng.random()
+                if r < 0.45 and n >= 2:
+                    i, j = rng.sample(range(n), 2)
+                    edits.append({"op": "set", "i": i, "j": j, "v": canon.enc(Fraction(rng.randint(-3, 3), 4)),
+                                  "mirror": sym})
+                elif r < 0.7:
+                    i = rng.randrange(n)
+                    edits.append({"op": "set", "i": i, "j": i,
+                                  "v": canon.enc(A[i][i] + Fraction(rng.randint(1, 12), 2)), "mirror": False})
+                else:
+                    edits.append({"op": "add_diag", "v": canon.enc(rng.choice([Fraction(1, 2), 1, 2, 5]))})
+        else:
+            g = self._cmat_case(rng)
+            while g["n"] < 2 or g["n"] > 6 or g["m"] > 16:
+                g = self._cmat_case(rng)
+            g["sel"] = None
+            case.update({k: v for k, v in g.items() if k != "kind"})
+            case["src"] = "gmat"
+            # a jitter that fires on the singular matrices of the re-estimating estimators (tolerance and range
+            # are public arguments); large enough to make the result well conditioned
+            edits.append({"op": "jitter", "tol": "1/1000000", "lo": "1/2", "hi": 1})
+            if rng.random() < 0.5:
+                edits.append({"op": "add_diag", "v": canon.enc(rng.choice([Fraction(1, 2), 1, 3]))})
+            if rng.random() < 0.4:
+                i, j = rng.sample(range(g["n"]), 2)
+                edits.append({"op": "set", "i": i, "j": j, "v": canon.enc(Fraction(rng.randint(-1, 1), 4)),
+                              "mirror": True})
+        case["edits"] = edits
+        return case
+
     def _summ_case(self, rng):
         n = rng.choice([1, 2, 2, 3, 3, 4, 5, 6])
         style = rng.random()
@@ -401,10 +536,14 @@ class C13(Prop):
         out = []
         for _ in range(n):
             r = rng.random()
-            if r < 0.70:
+            if r < 0.56:
                 out.append(self._cmat_case(rng))
-            elif r < 0.90:
+            elif r < 0.64:
+                out.append(self._bigm_case(rng))
+            elif r < 0.80:
                 out.append(self._summ_case(rng))
+            elif r < 0.92:
+                out.append(self._edit_case(rng))
             else:
                 out.append(self._reject_case(rng))
         return out
@@ -449,6 +588,8 @@ class C13(Prop):
             c = M["cls"][case["cls"]](mat=mat, taxa=taxa)
             sym = bool((mat == mat.T).all())
             return {"mat": canon.enc(c.mat), "symmetric": sym, **_summaries(c, sym)}
+        if k == "edit":
+            return self._run_edit(M, case)
         if k == "reject":
             try:
                 gm = self._gmat(M, case)
@@ -480,6 +621,41 @@ class C13(Prop):
             out["sel_b"] = {"mat": canon.enc(b.mat), **self._labels(b)}
         return out
 
+    def _run_edit(self, M, case):
+        if case["src"] == "mat":
+            mat = numpy.array([[_fl(v) for v in r] for r in case["mat"]], dtype="float64")
+            taxa = None if case["taxa"] is None else numpy.array(case["taxa"], dtype=object)
+            c = M["cls"][case["cls"]](mat=mat, taxa=taxa)
+        else:
+            c = self._build(M, case, self._gmat(M, case))
+        n = c.mat.shape[0]
+
+        def snap():
+            m = c.mat.copy()
+            sym = bool((m == m.T).all())
+            return {"mat": canon.enc(m), "symmetric": sym, **_summaries(c, sym)}
+
+        steps = [snap()]                     # first round of summaries (anything cached is cached now)
+        ident = id(c.mat)
+        info = []
+        for k, e in enumerate(case["edits"]):
+            if e["op"] == "set":
+                c.mat[e["i"], e["j"]] = _fl(e["v"])
+                if e.get("mirror"):
+                    c.mat[e["j"], e["i"]] = _fl(e["v"])
+                info.append(None)
+            elif e["op"] == "add_diag":
+                c.mat[numpy.diag_indices(n)] += _fl(e["v"])
+                info.append(None)
+            elif e["op"] == "jitter":
+                numpy.random.seed((case["seed"] + k) % (2 ** 32))
+                info.append(bool(c.apply_jitter(eigvaltol=_fl(e["tol"]), minjitter=_fl(e["lo"]),
+                                                maxjitter=_fl(e["hi"]))))
+            else:
+                raise ValueError(e["op"])
+            steps.append(snap())             # the matrix is read back from the object: the model takes it as is
+        return {"steps": steps, "info": info, "same_array": bool(id(c.mat) == ident)}
+
     # ------------------------------------------------------------------ model requests
     @staticmethod
     def _base_req(case):
@@ -492,6 +668,14 @@ class C13(Prop):
             if _finite(obs):
                 reqs.append({"op": "c13.spec_summ", "mat": obs["mat"], "co": obs["co"], "kin": obs["kin"],
                              "symmetric": obs["symmetric"]})
+            return reqs
+        if k == "edit":
+            reqs = []
+            for st in obs["steps"]:
+                if _finite(st):
+                    reqs.append({"op": "c13.summ", "mat": st["mat"]})
+                    reqs.append({"op": "c13.spec_summ", "mat": st["mat"], "co": st["co"], "kin": st["kin"],
+                                 "symmetric": st["symmetric"]})
             return reqs
         base = self._base_req(case)
         if k == "reject":
@@ -556,6 +740,41 @@ class C13(Prop):
             bad = self._cmp_summ(model, obs)
             return {"corr": not bad, "spec": bool(spec["ok"]), "nontrivial": len(case["mat"]) >= 2,
                     "detail": f"summ corr_mismatch={bad} spec_failed={spec['failed']}"}
+        if k == "edit":
+            steps = obs["steps"]
+            if not all(_finite(st) for st in steps):
+                return {"corr": False, "spec": False, "nontrivial": True,
+                        "detail": "non-finite matrix / summary after an in-place edit"}
+            bad, failed = [], []
+            for t, st in enumerate(steps):
+                model, spec = answers[2 * t]["ok"], answers[2 * t + 1]["ok"]
+                bad += [f"step{t}.{b}" for b in self._cmp_summ(model, st)]
+                failed += [f"step{t}.{f}" for f in spec["failed"]]
+            # the element edits themselves (numpy semantics): the matrix read back is the edited one
+            changed = False
+            for t, e in enumerate(case["edits"]):
+                before, after = canon.dec(steps[t]["mat"]), canon.dec(steps[t + 1]["mat"])
+                want = [list(r) for r in before]
+                if e["op"] == "set":
+                    want[e["i"]][e["j"]] = Fraction(e["v"])
+                    if e.get("mirror"):
+                        want[e["j"]][e["i"]] = Fraction(e["v"])
+                elif e["op"] == "add_diag":
+                    for i in range(len(want)):
+                        want[i][i] = Fraction(float(want[i][i]) + _fl(e["v"]))
+                else:                                   # jitter: only the diagonal may move, upwards
+                    lo, hi = Fraction(e["lo"]), Fraction(e["hi"])
+                    for i in range(len(want)):
+                        d = after[i][i] - before[i][i]
+                        if d != 0 and lo * Fraction(999, 1000) <= d <= hi * Fraction(1001, 1000):
+                            want[i][i] = after[i][i]
+                if want != after:
+                    bad.append(f"edit{t}.matrix")
+                changed = changed or after != before
+            if not obs["same_array"]:
+                bad.append("matrix object replaced")
+            return {"corr": not bad, "spec": not failed, "nontrivial": changed and len(steps[0]["mat"]) >= 2,
+                    "detail": f"edit[{case['src']}] corr_mismatch={bad} spec_failed={failed} jitter={obs['info']}"}
         if k == "reject":
             model = answers[0]["ok"]
             mtag = _MODEL_TAG.get(model.get("err"), model.get("err"))
@@ -605,6 +824,13 @@ class C13(Prop):
 
     def shrink(self, case):
         k = case["kind"]
+        if k == "edit":
+            for t in range(len(case["edits"])):
+                if len(case["edits"]) > 1:
+                    c = dict(case)
+                    c["edits"] = case["edits"][:t] + case["edits"][t + 1:]
+                    yield c
+            return
         if k == "summ":
             n = len(case["mat"])
             for i in range(n):
@@ -835,8 +1061,59 @@ class C13(Prop):
             c = Mol.from_gmat(gmat=gmat, **kw)
             return Mol(mat=0.5 * c.mat, taxa=c.taxa, taxa_grp=c.taxa_grp)
 
+        def mol_int8(cls, gmat, **kw):
+            X = gmat.tacount("int8")                     # narrow accumulator: X X' wraps at 128
+            r = 1.0 / gmat.nvrnt
+            if gmat.ploidy == 1:
+                Y = (1 - X).astype("int8")
+                G = (2.0 * r) * ((X @ X.T) + (Y @ Y.T))
+            else:
+                X -= 1
+                G = 1.0 + r * (X @ X.T)
+            return finish(cls, numpy.asarray(G, dtype="float64"), gmat)
+
+        def gw_float32(cls, gmat, mkrwt=None, afreq=None, **kw):
+            m = gmat.nvrnt
+            w = numpy.full((m,), 1.0) if mkrwt is None else \
+                (mkrwt if isinstance(mkrwt, numpy.ndarray) else numpy.full((m,), float(mkrwt)))
+            p = gmat.afreq() if afreq is None else \
+                (afreq if isinstance(afreq, numpy.ndarray) else numpy.full((m,), float(afreq)))
+            Z = (gmat.tacount() - float(gmat.ploidy) * p[None, :]).astype("float32")
+            G = (Z * w[None, :].astype("float32")).dot(Z.T).astype("float64")
+            return finish(cls, G, gmat)
+
+        orig_inverse = Base.__dict__["inverse"]
+
+        def inverse_memo(self, format="coancestry"):
+            key = (id(self._mat), format.lower())       # memoised on the identity of the array
+            cache = self.__dict__.setdefault("_inv_cache", {})
+            if key not in cache:
+                cache[key] = orig_inverse(self, format)
+            return cache[key]
+
+        def min_inb_memo(self, format="coancestry"):
+            out = 1.0 / inverse_memo(self, "coancestry").sum()
+            return 0.5 * out if format.lower() == "kinship" else out
+
+        @contextlib.contextmanager
+        def memoised_inverse():
+            with patch(Base, "inverse", inverse_memo), patch(Base, "min_inbreeding", min_inb_memo):
+                yield
+
+        def mean_memo(self, format="coancestry", axis=None, dtype=None):
+            cache = self.__dict__.setdefault("_mean_cache", {})
+            key = (id(self._mat), axis)
+            if key not in cache:
+                cache[key] = self._mat.mean(axis=axis, dtype=dtype)
+            out = cache[key]
+            return out * 0.5 if format.lower() == "kinship" else out
+
         cm = classmethod
         return [
+            ("mol_int8_accumulation", lambda: patch(Mol, "from_gmat", cm(mol_int8))),
+            ("gw_float32_product", lambda: patch(GW, "from_gmat", cm(gw_float32))),
+            ("inverse_memoised_on_array_identity", memoised_inverse),
+            ("mean_memoised_on_array_identity", lambda: patch(Base, "mean", mean_memo)),
             ("mol_X_not_centred", lambda: patch(Mol, "from_gmat", cm(mol_uncentred))),
             ("mol_1_over_m_dropped", lambda: patch(Mol, "from_gmat", cm(mol_no_rnvrnt))),
             ("mol_haploid_1_over_m", lambda: patch(Mol, "from_gmat", cm(mol_haploid_half))),
